@@ -2,6 +2,7 @@ import SqiModel.Util
 import SqiModel.Intbig
 import SqiModel.NumberTheory
 import SqiModel.Kernels
+import SqiModel.Howell
 /- driver ops of the C17 models (integers in hex with optional '-', one result line per op) -/
 namespace SqiModel.Drv.Int
 open SqiModel SqiModel.Util SqiModel.Intbig SqiModel.NumberTheory SqiModel.Kernels
@@ -133,6 +134,19 @@ def handle : List String → Option String
       let p ← parseHexInt? p; let es ← parseInts? es
       if es.length ≠ 20 then none else
       pure (showRes hs (ker4x5ModPrime (toMat 5 es) p))
+  | "ker44two" :: e :: es => do
+      let e ← parseHexNat? e; let es ← parseInts? es
+      if es.length ≠ 16 then none else
+      pure (showRes hs (SqiModel.Howell.ker4x4ModPow2 (SqiModel.Howell.ofLists (toMat 4 es)) e))
+  | "howell" :: rows :: cols :: m :: es => do
+      let rows ← parseHexNat? rows; let cols ← parseHexNat? cols; let m ← parseHexInt? m; let es ← parseInts? es
+      if es.length ≠ rows * cols ∨ cols = 0 ∨ cols > rows then none else
+      let (H, T, z) := SqiModel.Howell.matHowell rows cols (SqiModel.Howell.ofLists (toMat cols es)) m
+      pure (toHex z ++ " " ++ hs (SqiModel.Howell.toLists H).flatten ++ " | " ++ hs (SqiModel.Howell.toLists T).flatten)
+  | "kermod" :: rows :: cols :: m :: es => do
+      let rows ← parseHexNat? rows; let cols ← parseHexNat? cols; let m ← parseHexInt? m; let es ← parseInts? es
+      if es.length ≠ rows * cols ∨ cols = 0 ∨ cols > rows then none else
+      pure (hs (SqiModel.Howell.toLists (SqiModel.Howell.matRightKerMod rows cols (SqiModel.Howell.ofLists (toMat cols es)) m)).flatten)
   | "chkker2e" :: e :: es => do
       let e ← parseHexNat? e; let es ← parseInts? es
       if es.length ≠ 20 then none else
